@@ -310,6 +310,62 @@ def _skip_body(x):
     return True
 
 
+def body_dims(part):
+    return [[0, 1, 2], ["str", "bytes", "list_str", "gen_str", "list_bytes"], strings_upto("\r\n\u00e9\u20aca0", part["maxlen"]), [False, True]]
+
+
+def _body_point(idx):
+    front, kind, x, chunked = decode_point(idx, body_dims)
+    return N._untraced(_body_body)(front, kind, x, chunked)
+
+
+def _body_body(front, kind, x, chunked):
+    """A hostile BODY can never start a second request: whatever its type, the bytes after the header block are exactly the
+    framed payload (str as UTF-8) — in particular a chunk's announced size is its BYTE length."""
+    smuggle = x + "\r\n0\r\n\r\nGET /smuggled HTTP/1.1\r\nHost: h\r\n\r\n"
+    data = smuggle.encode("utf-8")
+    body = {"str": smuggle, "bytes": data, "list_str": [x, smuggle[len(x):]], "gen_str": (c for c in [x, smuggle[len(x):]]),
+            "list_bytes": [x.encode("utf-8"), smuggle[len(x):].encode("utf-8")]}[kind]
+    netw = N.install(Sink())
+    E.install_clock()
+    try:
+        exc = None
+        try:
+            if front == 0:
+                HTTPConnection("h", 80).request("POST", "/p", body=body, chunked=chunked)
+            elif front == 1:
+                HTTPConnectionPool("h", 80).urlopen("POST", "/p", body=body, chunked=chunked, retries=False)
+            else:
+                PoolManager().request("POST", "http://h/p", body=body, chunked=chunked, retries=False)
+        except (HTTPError, ValueError, TypeError) as e:
+            exc = e
+        tx = b"".join(s.tx for s in netw.socks)
+        if exc is not None:
+            return True if not tx else _fail("body %s: %r raised after bytes were written" % (kind, exc))
+        try:
+            reqs, rest = N.parse_requests(tx)
+        except N.ParseError as e:
+            return _fail("body %s %r: the wire is not one well-formed request: %s | %r" % (kind, x, e, tx[-120:]))
+        if len(reqs) != 1 or rest:
+            return _fail("body %s %r (chunked=%s): %d requests on the wire, %d stray bytes: %r"
+                         % (kind, x, chunked, len(reqs), len(rest), [r["target"] for r in reqs]))
+        if reqs[0]["body"] != data:
+            return _fail("body %s %r: payload on the wire %r != %r" % (kind, x, reqs[0]["body"][:60], data[:60]))
+        mark("one request")
+        return True
+    finally:
+        N.uninstall()
+        E.uninstall_clock()
+
+
+def c10_body(idx: int) -> bool:
+    """
+    pre: 0 <= idx < P.n
+    post: _
+    """
+    return run(_body_point, idx)
+
+
 def skip_dims(part):
     return [strings_upto("aA-1", 2)]
 
@@ -380,7 +436,7 @@ def c10_h2(idx: int) -> bool:
     return run(_h2_point, idx)
 
 
-DIMS = {"c10_field": field_dims, "c10_auto": auto_dims, "c10_skip": skip_dims, "c10_h2": h2_dims}
+DIMS = {"c10_body": body_dims, "c10_field": field_dims, "c10_auto": auto_dims, "c10_skip": skip_dims, "c10_h2": h2_dims}
 
 
 # ---- E2 lemmas -------------------------------------------------------------------------------------------------------
@@ -508,6 +564,7 @@ def JOBS(tier):
                          "part": {"front": front, "field": field, "maxlen": 3 if quick else 4}})
         jobs.append({"func": "c10_auto", "timeout": t, "part": {"front": front}})
     jobs.append({"func": "c10_skip", "timeout": t, "part": {}})
+    jobs.append({"func": "c10_body", "timeout": t, "samples": 1, "part": {"maxlen": 2 if quick else 3}})
     jobs.append({"func": "c10_h2", "timeout": t, "part": {"maxlen": 2 if quick else 3}})
     return jobs
 
@@ -519,7 +576,7 @@ EVIDENCE = {
                         "skip masks x 4 casings x 3 entry points; HTTP/2 putheader with <= 2 hostile characters as str and bytes",
                "thorough": "fields of <= 4 characters, HTTP/2 <= 3"},
     "outside": ["hostile strings longer than the bound in E1 (the E2 lemmas cover any length for the validation patterns)",
-                "body bytes (C11)", "HTTP/2 framing (h2 package)"],
+                "body framing in general (C11); here only: a hostile body (str/bytes/str chunks/byte chunks with an embedded request) stays one request", "HTTP/2 framing (h2 package)"],
     "stubs": ["create_connection -> MemSock", "clock constant", "logging disabled"],
     "assumptions": ["a header value '\\r\\n\\t...' is written by http.client as an obs-fold continuation of the same field: not an added "
                     "header line", "hostile fields are solver-enumerated (one model per path) because they reach the regex engine and codecs"],
